@@ -42,8 +42,8 @@ TRUSTED_BASE = [
     "D22' repair, filters) tied to circuit_comparison.py / circuit_dag.py by this correspondence run (graphs compared node by node, key by key "
     "and attribute by attribute, before and after normalisation; all comparison results, filters and storages exactly)",
     "networkx.is_isomorphic assumed to decide existence of a bijection satisfying node_match/edge_match and preserving edge multiplicities "
-    "(the theorems are about every bijection that passes the check `isoCheck2`, never about the search; the model's backtracking search is "
-    "compared with networkx' answer on every pair)",
+    "(the theorems are about every bijection that passes the check `isoCheck2`; the model's backtracking search is proved complete for that "
+    "specification on circuit DAGs — C15.model_answer_is_existence_of_an_isomorphism — and is compared with networkx' answer on every pair)",
     "'same compiled state' from 'same operation sequence on every register': proved for every semantics in which operations on disjoint quantum "
     "registers commute (Properties/C15.iso_sound_same_compiled_state) and instantiated with C13's verified stabilizer semantics "
     "(iso_sound_same_stabilizer_state) through the definitional translation `toSOp` (Proofs/CompareRepairStab.lean) of an executed operation of this "
